@@ -32,6 +32,14 @@ pub struct Scenario {
     /// chosen points inside fn_graph's own channel / lock operations.
     #[serde(default, skip_serializing_if = "Vec::is_empty")]
     pub burn: Vec<u32>,
+    /// Every run of the `Runs` phase lives on its own OS thread (created, polled, completed and dropped there); the
+    /// threads take turns, one driver step at a time. Runs take the graph by shared reference.
+    #[serde(default, skip_serializing_if = "std::ops::Not::not")]
+    pub threads: bool,
+    /// Every `FnRef` of a stream is dropped on ANOTHER thread than the one that polls the stream
+    /// (a short-lived thread per drop, joined before the next step).
+    #[serde(default, skip_serializing_if = "std::ops::Not::not")]
+    pub xdrop: bool,
 }
 
 #[derive(Serialize, Deserialize, Clone, Debug, PartialEq)]
